@@ -717,7 +717,15 @@ func (s String) Split(args Tuple, kwargs StringDict) (Object, error) {
 	)
 	switch v := pyval.(type) {
 	case String:
-		vs = strings.SplitN(string(s), string(v), int(max)+1)
+		if len(v) == 0 {
+			return nil, ExceptionNewf(ValueError, "empty separator")
+		}
+		// a negative maxsplit means no limit
+		n := -1
+		if max >= 0 {
+			n = int(max) + 1
+		}
+		vs = strings.SplitN(string(s), string(v), n)
 	case NoneType:
 		vs = fieldsN(string(s), int(max))
 	default:
